@@ -473,8 +473,14 @@ pub fn check_c19(tier: Tier) -> i32 {
 // C16 construction grid + side-by-side histories
 
 fn c16_construct<A: Subject>(run: &Run, reserved: u32, cap: u32, unify: bool, backend: Backend) {
+  c16_construct_at::<A>(run, reserved, cap, unify, backend, 0)
+}
+
+/// `file_offset` > 0: a file arena whose window starts at that offset of the file
+fn c16_construct_at<A: Subject>(run: &Run, reserved: u32, cap: u32, unify: bool, backend: Backend, file_offset: u32) {
   let mut cfg = Cfg::new(Fl::Optimistic, backend, unify, cap);
   cfg.reserved = reserved;
+  cfg.file_offset = file_offset;
   cfg.magic = 7;
   cfg.min_seg = 13;
   let prefix = cfg.data_offset() as u32;
@@ -655,6 +661,17 @@ pub fn check_c16(tier: Tier) -> i32 {
     for cap in [prefix.saturating_sub(1), prefix, prefix + 1, prefix + 64] {
       c16_construct::<sync::Arena>(&run, r, cap, unify, backend);
       c16_construct::<unsync::Arena>(&run, r, cap, unify, backend);
+    }
+  });
+  // file arenas that start at a page-aligned offset of their file: same layout, same accessors, reopen in every mode
+  let off_items: Vec<u32> = if thorough { (0..=72).collect() } else { vec![0, 1, 5, 8, 40] };
+  par_for_each(&off_items, |_, &r| {
+    let mut c = Cfg::new(Fl::Optimistic, Backend::File, true, 0);
+    c.reserved = r;
+    let prefix = c.data_offset() as u32;
+    for cap in [prefix.saturating_sub(1), prefix, prefix + 1, prefix + 64] {
+      c16_construct_at::<sync::Arena>(&run, r, cap, true, Backend::File, 4096);
+      c16_construct_at::<unsync::Arena>(&run, r, cap, false, Backend::File, 8192);
     }
   });
   // (b) histories with the layout oracle (reserved immutable, id bytes, remaining, first offset) on both flavours
@@ -1104,6 +1121,10 @@ pub fn check_c18(tier: Tier) -> i32 {
     for (b, u) in [(Backend::Vec, false), (Backend::Vec, true), (Backend::Anon, false), (Backend::Anon, true), (Backend::File, true)] {
       cells.push(Cfg::new(fl, b, u, if u || b == Backend::File { cap + 96 } else { cap + 65 }));
     }
+    // a file arena that starts at an offset of its file
+    let mut c = Cfg::new(fl, Backend::File, true, cap + 96);
+    c.file_offset = 4096;
+    cells.push(c);
   }
   par_for_each(&cells, |_, c| c18_cell(&run, c, &alphabet, if thorough { 3 } else { 2 }, &ns));
   // read-only arenas refuse
@@ -1144,7 +1165,7 @@ pub fn check_c18(tier: Tier) -> i32 {
       viol(&run, "C18", "after-truncate:alignment", m, case.clone());
     }
   }
-  run.rule("truncate(n) for n over the stated grid after every history of the stated depth from 4 start states x 15 configuration cells (3 free-list kinds x Vec/anon plain+unified, file); after each truncate four follow-up allocations under the shadow, policy, zero-fill and error-state oracles; read-only arenas must refuse; evaluations = truncate calls");
+  run.rule("truncate(n) for n over the stated grid after every history of the stated depth from 4 start states x 18 configuration cells (3 free-list kinds x Vec/anon plain+unified, file, file at offset 4096); after each truncate four follow-up allocations under the shadow, policy, zero-fill and error-state oracles; read-only arenas must refuse; evaluations = truncate calls");
   run.set("bounds", json!({"n_values": ns.len(), "n_max": 4 * cap, "history_depth": if thorough { 3 } else { 2 }}));
   run.finish()
 }
